@@ -182,15 +182,22 @@ struct Sched {
 Sched S;
 thread_local int t_id = -1;
 
-void switch_to(int target, int self) {
+#define NOINSTR __attribute__((no_instrument_function))
+NOINSTR void switch_to(int target, int self) {
   S.running = target;
   S.switches++;
   sem_post(&S.sem[target]);
   if (self >= 0) sem_wait(&S.sem[self]);
 }
 
-void alloc_hook(int, size_t) {
-  if (!S.active || t_id < 0) return;
+thread_local bool t_in_hook = false;
+struct HookGuard {
+  NOINSTR HookGuard() { t_in_hook = true; }
+  NOINSTR ~HookGuard() { t_in_hook = false; }
+};
+NOINSTR void alloc_hook(int, size_t) {
+  if (!S.active || t_id < 0 || t_in_hook) return;
+  HookGuard guard;  // the hook's own callees may be instrumented (sched variant)
   const int me = t_id;
   S.points++;
   S.per_thread[me]++;
@@ -207,6 +214,14 @@ void alloc_hook(int, size_t) {
   S.preemptions++;
   switch_to(target, me);
 }
+
+// With the `sched` build variant (-finstrument-functions-after-inlining on the library) every function entry of
+// draco is a scheduling point as well.
+bool g_func_points = false;
+extern "C" NOINSTR void __cyg_profile_func_enter(void *, void *) {
+  if (g_func_points) alloc_hook(2, 0);
+}
+extern "C" NOINSTR void __cyg_profile_func_exit(void *, void *) {}
 
 void thread_body(int id, JobFn fn, uint64_t *result) {
   sem_wait(&S.sem[id]);
@@ -370,6 +385,8 @@ int main(int argc, char **argv) {
   mc::Runner R(argc, argv, "C19");
   R.level = "model_checking";
   const bool tsan = R.flag("tsan");
+  const bool funcpoints = R.flag("funcpoints");
+  g_func_points = funcpoints;
   // expected (sequential) results and scheduling points per job
   for (int j = 0; j < kNumJobs; ++j) g_expected[j] = kJobs[j].fn();
   mc::alloc_env().hook = alloc_hook;
@@ -393,7 +410,8 @@ int main(int argc, char **argv) {
       "9 jobs (encode+decode of meshes with Edgebreaker/sequential coders, kd-tree and sequential point clouds, metadata, OBJ and PLY "
       "parsing/writing, keyframe animation), each on its own objects; scheduling points = every operator new/delete of a job thread; all "
       "schedules of every ORDERED job pair (incl. a job with itself) with at most 0 and 1 preemptions, bound 2 for selected pairs (quick) / "
-      "all pairs (thorough), three threads with at most 1 preemption; states = distinct (job set, results) outcomes; non-trivial = "
+      "all pairs but the kd-tree job (thorough), three threads with at most 1 preemption; a second build (-finstrument-functions) makes "
+      "every function entry (1e4..1.8e5 per job) a scheduling point as well: all schedules with at most 1 preemption for selected pairs; states = distinct (job set, results) outcomes; non-trivial = "
       "schedules with at least one context switch inside a job";
   R.explanation =
       tsan ? "free-running threads under ThreadSanitizer (halt on first report): every ordered job pair and a 16-thread mix, repeated; results "
@@ -451,6 +469,70 @@ int main(int argc, char **argv) {
     return R.main();
   }
 
+  if (funcpoints) {
+    // Same exploration with every function entry of the library as an additional scheduling point: all schedules with at
+    // most one preemption for the given ordered pairs.
+    auto add_fp = [&](const std::string &name, std::vector<std::pair<int, int>> pairs, bool quick, bool thorough) {
+      auto P = std::make_shared<std::vector<std::pair<int, int>>>(pairs);
+      auto off = std::make_shared<std::vector<uint64_t>>();
+      uint64_t total = 0;
+      for (auto &pr : pairs) {
+        off->push_back(total);
+        total += g_points[pr.first] + 1;
+      }
+      mc::Space s;
+      s.name = name;
+      s.size = total;
+      s.quick = quick;
+      s.thorough = thorough;
+      s.timeout_s = 60;
+      auto make = [P, off](uint64_t idx, int jobs[2], std::vector<Segment> *segs) {
+        int p = (int)off->size() - 1;
+        while ((*off)[p] > idx) --p;
+        const uint64_t i = idx - (*off)[p];
+        jobs[0] = (*P)[p].first;
+        jobs[1] = (*P)[p].second;
+        if (i == 0) *segs = {{1, UINT64_MAX}, {0, UINT64_MAX}};
+        else if (i >= g_points[jobs[0]]) *segs = {{0, UINT64_MAX}, {1, UINT64_MAX}};
+        else *segs = {{0, i}, {1, UINT64_MAX}, {0, UINT64_MAX}};
+      };
+      s.run = [make](uint64_t idx, mc::Ctx &ctx) {
+        int jobs[2];
+        std::vector<Segment> segs;
+        make(idx, jobs, &segs);
+        uint64_t res[2];
+        const bool ok = run_schedule(jobs, 2, segs, res);
+        ctx.count("schedules_executed");
+        ctx.count("scheduling_points_executed", S.points);
+        ctx.count_max("max_scheduling_points_in_one_execution", S.points);
+        if (S.preemptions) {
+          ctx.count("schedules_with_a_preemption");
+          ctx.nontrivial_unique();
+        }
+        ctx.state(mc::hash_combine(mc::hash_combine(jobs[0], jobs[1]), mc::hash_combine(res[0], res[1])));
+        if (!ok) report(ctx, jobs, 2, segs, res);
+      };
+      s.describe = [make](uint64_t idx) {
+        int jobs[2];
+        std::vector<Segment> segs;
+        make(idx, jobs, &segs);
+        return "function-entry points: " + seg_text(jobs, 2, segs);
+      };
+      R.add(s);
+    };
+    add_fp("funcpoints_pairs_bound_1_selected", {{0, 0}, {6, 8}}, true, false);
+    // thorough: every job with itself, and the Edgebreaker/tex-coord job with every other job in both orders
+    // (all 81 ordered pairs would be 5.3e6 schedules)
+    std::vector<std::pair<int, int>> sel;
+    for (int a = 0; a < kNumJobs; ++a) sel.push_back({a, a});
+    for (int a = 1; a < kNumJobs; ++a) {
+      sel.push_back({0, a});
+      sel.push_back({a, 0});
+    }
+    add_fp("funcpoints_pairs_bound_1_diagonal_and_job0", sel, false, true);
+    R.require("schedules_with_a_preemption", 1000);
+    return R.main();
+  }
   // 1. inventory
   {
     mc::Space s;
